@@ -137,6 +137,32 @@ func (w *World) classify1(fn *ssa.Function) fnClass {
 	return fnForeign
 }
 
+// PureFuncs: functions without side effects whose calls with symbolic
+// arguments are summarised (their own un-summarised behaviour is checked by
+// C04-K1 / the conformance replays).  Harness helpers named pure* qualify too.
+var PureFuncs = map[string]bool{
+	"github.com/DemoHn/Zn/pkg/syntax.IsWhiteSpace":        true,
+	"github.com/DemoHn/Zn/pkg/syntax.ContainsRune":        true,
+	"github.com/DemoHn/Zn/pkg/syntax.containsRune":        true,
+	"github.com/DemoHn/Zn/pkg/syntax.ContainsInt":         true,
+	"github.com/DemoHn/Zn/pkg/syntax.IdInRange":           true,
+	"github.com/DemoHn/Zn/pkg/syntax/zh.isIdentifierChar": true,
+	"github.com/DemoHn/Zn/pkg/syntax/zh.isPureNumber":     true,
+}
+
+func (w *World) isPure(fn *ssa.Function) bool {
+	if fn.Parent() != nil {
+		return false
+	}
+	if PureFuncs[fn.String()] {
+		return true
+	}
+	if p := fn.Package(); p != nil && strings.HasPrefix(p.Pkg.Path(), "zsym/harness") && strings.HasPrefix(fn.Name(), "pure") {
+		return true
+	}
+	return false
+}
+
 // PackageFunc finds a package-level function of the harness package.
 func (w *World) HarnessFunc(name string) *ssa.Function {
 	return w.Harness.Func(name)
